@@ -504,7 +504,32 @@ def check_report_total(repo: Repo, rep: Report):
                 never_empty = isinstance(arg, ast.Call) and dotted(arg.func) == "iter" and arg.args and isinstance(arg.args[0], ast.Call) and isinstance(arg.args[0].func, ast.Attribute) and arg.args[0].func.attr in ("split", "rsplit", "splitlines", "partition")
                 if not guarded and not never_empty:
                     rep.bad("C19.report", f.qualname, "bare-next", f"`{src(c)[:90]}` has no default and no handler: when nothing matches it raises StopIteration{', which inside this generator function becomes `RuntimeError: generator raised StopIteration`' if is_gen else ''} - the analysis raises instead of producing its finding", f.file, c.lineno)
-    rep.ok("C19.report", "fickling.analysis / fickling.ml", f"{len(scope)} functions scanned: {n} ordering-by-trigger / bare-next site(s)", "", nontrivial=False)
+    # the JSON report: findings quote names taken from the pickle (any str, including lone surrogates and astral characters).
+    # json.dump(s) is total over str only in its default ASCII-escaping mode; with ensure_ascii=False the characters go to the
+    # file as they are and a strict text encoder refuses what it cannot encode (UnicodeEncodeError out of check_safety)
+    for f in scope:
+        for c in body_walk(f.node):
+            if not isinstance(c, ast.Call) or (dotted(c.func) or "") not in ("json.dump", "json.dumps"):
+                continue
+            n += 1
+            ea = next((k.value for k in c.keywords if k.arg == "ensure_ascii"), None)
+            if ea is None or (isinstance(ea, ast.Constant) and ea.value not in (False, 0, None)):
+                continue
+            if (dotted(c.func) or "").endswith("dumps"):
+                # the str is produced; whether it is later encoded strictly is the writer's business - look for an encode/write
+                lenient = False
+            else:
+                lenient = False
+                fobj = c.args[1] if len(c.args) > 1 else next((k.value for k in c.keywords if k.arg == "fp"), None)
+                if isinstance(fobj, ast.Name):
+                    for w in ast.walk(f.node):
+                        if isinstance(w, ast.withitem) and isinstance(w.optional_vars, ast.Name) and w.optional_vars.id == fobj.id and isinstance(w.context_expr, ast.Call):
+                            er = next((k.value for k in w.context_expr.keywords if k.arg == "errors"), None)
+                            if isinstance(er, ast.Constant) and er.value in ("surrogatepass", "surrogateescape", "backslashreplace", "replace", "ignore", "xmlcharrefreplace", "namereplace"):
+                                lenient = True
+            if not lenient:
+                rep.bad("C19.report", f.qualname, "report-writer-not-total:ensure_ascii", f"`{src(c)[:100]}` switches off JSON's ASCII escaping: names quoted from the pickle (a module or attribute name may contain a lone surrogate) are then written as they are, and a strict text encoding raises UnicodeEncodeError - check_safety, and with it the checked loader, fail instead of reporting", f.file, c.lineno)
+    rep.ok("C19.report", "fickling.analysis / fickling.ml", f"{len(scope)} functions scanned: {n} ordering-by-trigger / bare-next / JSON-writer site(s)", "", nontrivial=False)
 
 
 def check_opcode_properties(repo: Repo, rep: Report):
